@@ -292,6 +292,7 @@ type scanRPC struct {
 	limit                          uint32
 	locked, resp                   [][]byte
 	done                           bool
+	retry                          bool // answered with a response-level lock error: the cursor must not move
 }
 
 type hijack struct {
@@ -404,6 +405,29 @@ func (hj *hijack) pre(req *tikvrpc.Request) (*tikvrpc.Response, error) {
 		return e.bufferBatchGet(req)
 	case tikvrpc.CmdGet, tikvrpc.CmdBatchGet, tikvrpc.CmdScan:
 		hj.mu.Lock()
+		// fault class: the failAt-th Scan RPC is answered with a response-level lock error (no pairs): the
+		// scanner resolves the named lock (ResolveLocks, the write-side variant), backs off if it is alive,
+		// and sends the same request again.  Only on a request whose region epoch is current (a stale one
+		// gets its region error from the store).
+		if hj.failAt > 0 && hj.failKind == 3 && req.Type == tikvrpc.CmdScan {
+			if reg, _ := e.cluster.GetRegion(req.Context.GetRegionId()); reg != nil &&
+				req.Context.GetRegionEpoch().GetVersion() == reg.GetRegionEpoch().GetVersion() {
+				hj.failAt--
+				if hj.failAt == 0 {
+					t := hj.failTxn
+					hj.failed++
+					sr := req.Scan()
+					if hj.tracing {
+						hj.trace = append(hj.trace, scanRPC{rstart: e.logical(mocktikv.MvccKey(reg.StartKey).Raw(), false), rend: e.logical(mocktikv.MvccKey(reg.EndKey).Raw(), true),
+							reqStart: sr.StartKey, reqEnd: sr.EndKey, limit: sr.Limit, done: true, retry: true})
+					}
+					hj.mu.Unlock()
+					li := &kvrpcpb.LockInfo{Key: t.keys[0], PrimaryLock: t.keys[0], LockVersion: t.start,
+						LockTtl: t.ttl, TxnSize: uint64(len(t.keys)), LockType: kvrpcpb.Op_Put}
+					return &tikvrpc.Response{Resp: &kvrpcpb.ScanResponse{Error: &kvrpcpb.KeyError{Locked: li}}}, nil
+				}
+			}
+		}
 		// fault class: the failAt-th point read RPC from now on fails non-retryably
 		if hj.failAt > 0 && hj.failKind == 2 {
 			// fault class: the failAt-th BatchGet RPC is answered with a response-level lock error (no pairs)
@@ -419,7 +443,7 @@ func (hj *hijack) pre(req *tikvrpc.Request) (*tikvrpc.Response, error) {
 					return &tikvrpc.Response{Resp: &kvrpcpb.BatchGetResponse{Error: &kvrpcpb.KeyError{Locked: li}}}, nil
 				}
 			}
-		} else if hj.failAt > 0 && req.Type != tikvrpc.CmdScan {
+		} else if hj.failAt > 0 && hj.failKind <= 1 && req.Type != tikvrpc.CmdScan {
 			hj.failAt--
 			if hj.failAt == 0 {
 				kind := hj.failKind
@@ -530,6 +554,24 @@ func (hj *hijack) armLockAnswer(n int, r *rand.Rand, ts uint64) bool {
 	}
 	hj.mu.Lock()
 	hj.failAt, hj.failKind, hj.failTxn = n, 2, fin[r.Intn(len(fin))]
+	hj.mu.Unlock()
+	return true
+}
+
+// armScanLock: the n-th Scan RPC from now gets a response-level lock error naming a lock of a finished
+// or of a live pushable transaction (start <= ts)
+func (hj *hijack) armScanLock(n int, r *rand.Rand, ts uint64) bool {
+	var cand []*txnSpec
+	for i := range hj.env.h.txns {
+		if t := &hj.env.h.txns[i]; (t.kind == kCommitted || t.kind == kRolledBack || t.kind == kPushable) && t.start <= ts {
+			cand = append(cand, t)
+		}
+	}
+	if len(cand) == 0 {
+		return false
+	}
+	hj.mu.Lock()
+	hj.failAt, hj.failKind, hj.failTxn = n, 3, cand[r.Intn(len(cand))]
 	hj.mu.Unlock()
 	return true
 }
@@ -920,6 +962,9 @@ func (e *env) traceString() string {
 		if !t.done {
 			st = "panic"
 		}
+		if t.retry {
+			st = "resplock"
+		}
 		parts = append(parts, fmt.Sprintf("%s|%s|%s|%s|%d|%s|%s|%s", hx(t.rstart), hx(t.rend), hx(t.reqStart), hx(t.reqEnd), t.limit, hxs(t.locked), hxs(t.resp), st))
 	}
 	e.hj.trace = nil
@@ -1194,6 +1239,21 @@ func (e *env) reads(tier string) []string {
 		bgetL("after-fault-sub", sf, h.ts1, pick(r, 1+r.Intn(len(allKeys)), allKeys))
 	}
 	e.scanCase(&lines, "after-fault", h.ts1, nil, nil, batchSizes[r.Intn(4)], false, false, false)
+	// fault class: a Scan RPC is answered with a response-level lock error (both directions, random
+	// bounds and batch sizes, with and without topology changes)
+	for round := 0; round < 4; round++ {
+		lo, hi := []byte(nil), []byte(nil)
+		if round >= 2 {
+			lo, hi = e.randBound(r), e.randBound(r)
+			if len(hi) > 0 && bytes.Compare(lo, hi) > 0 {
+				lo, hi = hi, lo
+			}
+		}
+		if e.hj.armScanLock(1+r.Intn(3), r, h.ts1) {
+			e.scanCase(&lines, "scan-resplock", h.ts1, lo, hi, batchSizes[r.Intn(4)], false, round%2 == 1, r.Intn(3) == 0)
+			e.hj.arm(0, 0)
+		}
+	}
 	// fault class: a BatchGet RPC is answered with a response-level lock error (TiKV does so when the
 	// whole batch hits e.g. an in-memory lock): no pairs, one lock named; the retry must re-read ALL keys of
 	// the batch.  Synchronous and asynchronous API, batches of 1..n keys, cold and partly warm cache.
